@@ -213,6 +213,13 @@ package remedies
 //@   ensures[no-prioritization] remedyConfig.Prioritization == nil ==> result == 0.0
 //@   ensures[listed-priority] remedyConfig.Prioritization != nil && in(remedyConfig.Prioritization.GroupBy.HeaderName, onRequest.Headers) && in(onRequest.Headers[remedyConfig.Prioritization.GroupBy.HeaderName], remedyConfig.Prioritization.Groups) ==> result == remedyConfig.Prioritization.Groups[onRequest.Headers[remedyConfig.Prioritization.GroupBy.HeaderName]].Priority
 
+// the registry of queues: a queue, once registered for a key, is never replaced (every interleaving of requests)
+//@ monitor StrategyBasedQueuePlugin.queuesMutex
+//@   self p
+//@   protects queues
+//@   invariant[map] p.queues != nil
+//@   rely[queues-stay] p.queues == old(p.queues) && forall(k, queue.QueueKey, old(in(k, p.queues)) ==> in(k, p.queues) && p.queues[k] == old(p.queues[k]))
+
 //@ func (*StrategyBasedQueuePlugin).OnRequest
 //@   prop C10
 //@   requires plugin != nil && plugin.queues != nil && plugin.clock != nil && plugin.initQueue != nil && scopedRemedy.Remedy != nil
@@ -222,7 +229,7 @@ package remedies
 //@   on entry do gEnqDone = false
 //@   ensures[obeys-the-queue] result1 == nil ==> gEnqDone && (gEnqProceed <==> typeis(result0, *actions.NoOpAction)) && (!gEnqProceed <==> typeis(result0, *actions.EarlyResponseAction))
 //@   ensures[rejected-with-the-configured-status] result1 == nil && typeis(result0, *actions.EarlyResponseAction) ==> result0.(*actions.EarlyResponseAction).Status == remedyConfig.ResponseStatusCode
-//@   ensures[own-queue] seq: gEnqDone ==> in(queue.QueueKey{scopedRemedy.Remedy.Name, queue.Strategy{remedyConfig.AllowedRequestCount, remedyConfig.WindowSizeInSeconds * 1000000000}}, plugin.queues) && gEnqQueue == plugin.queues[queue.QueueKey{scopedRemedy.Remedy.Name, queue.Strategy{remedyConfig.AllowedRequestCount, remedyConfig.WindowSizeInSeconds * 1000000000}}]
+//@   ensures[own-queue] gEnqDone ==> in(queue.QueueKey{scopedRemedy.Remedy.Name, queue.Strategy{remedyConfig.AllowedRequestCount, remedyConfig.WindowSizeInSeconds * 1000000000}}, plugin.queues) && gEnqQueue == plugin.queues[queue.QueueKey{scopedRemedy.Remedy.Name, queue.Strategy{remedyConfig.AllowedRequestCount, remedyConfig.WindowSizeInSeconds * 1000000000}}]
 //@   ensures[queue-kept] seq: forall(k, queue.QueueKey, old(in(k, plugin.queues)) ==> in(k, plugin.queues) && plugin.queues[k] == old(plugin.queues[k]))
 //@   ensures[other-queues-untouched] seq: forall(k, queue.QueueKey, k != queue.QueueKey{scopedRemedy.Remedy.Name, queue.Strategy{remedyConfig.AllowedRequestCount, remedyConfig.WindowSizeInSeconds * 1000000000}} ==> (in(k, plugin.queues) <==> old(in(k, plugin.queues))))
 //@   ensures[configured-ttl-and-size] gEnqDone && remedyConfig.TTLSeconds >= 0.0 ==> real(gEnqTTL) <= 1000000000.0 * real(remedyConfig.TTLSeconds) && real(gEnqTTL) > 1000000000.0 * (real(remedyConfig.TTLSeconds) - 1.0) && gEnqSize == remedyConfig.QueueSize
